@@ -123,7 +123,7 @@ def meta(tier):
                             edits=["delete opening line", "delete END line", "duplicate END line", "END name := symbolic name of the same length, different ignoring case"],
                             parentheses="delete each parenthesis outside character context; insert ( before / ) after it"),
                 assumptions=["free form, ignore_comments=True", "renamed END names differ from the original ignoring case and are not keywords"],
-                budget_s=300, unit_budget_s=60, witness_every=3)
+                budget_s=400, unit_budget_s=150, witness_every=3)
 
 
 OPENERS = ("subroutine", "function", "module", "program", "type", "interface", "if", "do", "select", "block", "associate", "critical", "enum")
